@@ -292,6 +292,7 @@ func init() {
 		b.WriteString("Inductive errstmt := EWarn | ERemoveAll (p : string) | EReturn.\n")
 		b.WriteString("Definition compressed_error_branch : list errstmt := [" + strings.Join(compErr, "; ") + "].\n")
 		b.WriteString("Definition plain_link_error_branch : list errstmt := [" + strings.Join(plainErr, "; ") + "].\n")
+		b.WriteString(c12RetrieveSide(f))
 		return b.String()
 	}
 }
@@ -314,4 +315,187 @@ func c12StmtText(s ast.Stmt) string {
 		return "if " + cnExpr(x.Cond)
 	}
 	return "statement"
+}
+
+// c12RetrieveSide translates the retrieve side that a dirty out directory depends on:
+//
+//   - ensureRetrieveReady, statement by statement, into a small program. Recognised statements:
+//     `fullOut := filepath.Join(core.RepoRoot, target.OutDir(), out)` (first, pinned),
+//     `if strings.ContainsRune(out, '/') { <simple statements> }` (no else),
+//     `if err := OP; err != nil { return "", err }`, `return fullOut, OP`, `return fullOut, nil`, with
+//     OP = os.MkdirAll(filepath.Dir(fullOut), core.DirPermissions) | fs.RemoveAll(fullOut) | os.RemoveAll(fullOut);
+//   - that both retrieve loops call it on the path they are about to create;
+//   - what the uncompressed loop of retrieveFiles reports as `found` next to an error;
+//   - whether retrieveCompressed opens regular files with O_TRUNC.
+func c12RetrieveSide(f *ast.File) string {
+	rr := findFunc(f, "dirCache", "ensureRetrieveReady")
+	params := []string{}
+	for _, p := range rr.Type.Params.List {
+		for _, n := range p.Names {
+			params = append(params, n.Name)
+		}
+	}
+	if strings.Join(params, ",") != "target,out" {
+		failShape("ensureRetrieveReady: parameters are %v", params)
+	}
+	body := rr.Body.List
+	if len(body) < 2 {
+		failShape("ensureRetrieveReady: %d statements", len(body))
+	}
+	if as, ok := body[0].(*ast.AssignStmt); !ok || c12StmtText(as) != "fullOut := filepath.Join(core.RepoRoot, target.OutDir(), out)" {
+		failShape("ensureRetrieveReady: first statement is %s", c12StmtText(body[0]))
+	}
+	op := func(e ast.Expr) string {
+		switch cnExpr(e) {
+		case "os.MkdirAll(filepath.Dir(fullOut), core.DirPermissions)":
+			return "OMkdirAllParent"
+		case "fs.RemoveAll(fullOut)", "os.RemoveAll(fullOut)":
+			return "ORemoveAllFull"
+		}
+		failShape("ensureRetrieveReady: unrecognised operation %s", cnExpr(e))
+		return ""
+	}
+	simple := func(st ast.Stmt) string {
+		switch x := st.(type) {
+		case *ast.ReturnStmt:
+			if len(x.Results) != 2 || cnExpr(x.Results[0]) != "fullOut" {
+				failShape("ensureRetrieveReady: return of %d values / not of fullOut", len(x.Results))
+			}
+			if cnExpr(x.Results[1]) == "nil" {
+				return "RReturnOk"
+			}
+			return "RReturnOp " + op(x.Results[1])
+		case *ast.IfStmt:
+			if x.Init == nil || x.Else != nil || cnExpr(x.Cond) != "err != nil" || len(x.Body.List) != 1 {
+				failShape("ensureRetrieveReady: statement `%s` is not `if err := OP; err != nil { return \"\", err }`", c12StmtText(x))
+			}
+			as, ok := x.Init.(*ast.AssignStmt)
+			if !ok || len(as.Lhs) != 1 || len(as.Rhs) != 1 || cnExpr(as.Lhs[0]) != "err" {
+				failShape("ensureRetrieveReady: init of `%s`", c12StmtText(x))
+			}
+			r, ok := x.Body.List[0].(*ast.ReturnStmt)
+			if !ok || len(r.Results) != 2 || cnExpr(r.Results[0]) != `""` || cnExpr(r.Results[1]) != "err" {
+				failShape("ensureRetrieveReady: the error of %s is not returned", cnExpr(as.Rhs[0]))
+			}
+			return "RTry " + op(as.Rhs[0])
+		}
+		failShape("ensureRetrieveReady: unrecognised statement %s", c12StmtText(st))
+		return ""
+	}
+	var prog []string
+	for _, st := range body[1:] {
+		if is, ok := st.(*ast.IfStmt); ok && is.Init == nil {
+			if cnExpr(is.Cond) != "strings.ContainsRune(out, '/')" || is.Else != nil {
+				failShape("ensureRetrieveReady: condition `%s` (or an else branch)", cnExpr(is.Cond))
+			}
+			var inner []string
+			for _, s2 := range is.Body.List {
+				inner = append(inner, simple(s2))
+			}
+			prog = append(prog, "RIfNested ["+strings.Join(inner, "; ")+"]")
+			continue
+		}
+		prog = append(prog, "RS ("+simple(st)+")")
+	}
+	// the last statement executed on every path must be a return
+	if last := prog[len(prog)-1]; !strings.HasPrefix(last, "RS (RReturn") {
+		failShape("ensureRetrieveReady: does not end in a return")
+	}
+
+	// both loops prepare the path they are about to create
+	rf := findFunc(f, "dirCache", "retrieveFiles")
+	var loop *ast.RangeStmt
+	for _, st := range rf.Body.List {
+		if r, ok := st.(*ast.RangeStmt); ok {
+			if loop != nil {
+				failShape("retrieveFiles: two range loops")
+			}
+			loop = r
+		}
+	}
+	if loop == nil || cnExpr(loop.X) != "outs" || cnExpr(loop.Value) != "out" {
+		failShape("retrieveFiles: `for _, out := range outs` not found")
+	}
+	if len(loop.Body.List) < 1 || c12StmtText(loop.Body.List[0]) != "realOut, err := cache.ensureRetrieveReady(target, out)" {
+		failShape("retrieveFiles: the loop does not start with ensureRetrieveReady(target, out)")
+	}
+	plainFound := ""
+	linked := false
+	ast.Inspect(loop.Body, func(n ast.Node) bool {
+		switch x := n.(type) {
+		case *ast.ReturnStmt:
+			if len(x.Results) != 2 || cnExpr(x.Results[1]) != "err" {
+				failShape("retrieveFiles: loop returns %s", c12StmtText(&ast.ExprStmt{X: x.Results[0]}))
+			}
+			v := cnExpr(x.Results[0])
+			if v != "true" && v != "false" {
+				failShape("retrieveFiles: loop returns found = %s", v)
+			}
+			if plainFound != "" && plainFound != v {
+				failShape("retrieveFiles: the loop's error returns disagree about found")
+			}
+			plainFound = v
+		case *ast.CallExpr:
+			if cnExpr(x) == "fs.RecursiveLink(cachedOut, realOut)" {
+				linked = true
+			}
+		}
+		return true
+	})
+	if plainFound == "" || !linked {
+		failShape("retrieveFiles: loop body not recognised (error returns %q, RecursiveLink %v)", plainFound, linked)
+	}
+	rc := findFunc(f, "dirCache", "retrieveCompressed")
+	ready, flags := false, ""
+	ast.Inspect(rc.Body, func(n ast.Node) bool {
+		switch x := n.(type) {
+		case *ast.AssignStmt:
+			if c12StmtText(x) == "out, err := cache.ensureRetrieveReady(target, hdr.Name)" {
+				ready = true
+			}
+		case *ast.CallExpr:
+			if cnExpr(x.Fun) == "os.OpenFile" && len(x.Args) == 3 {
+				if cnExpr(x.Args[0]) != "out" || flags != "" {
+					failShape("retrieveCompressed: OpenFile of %s", cnExpr(x.Args[0]))
+				}
+				flags = cnExpr(x.Args[1])
+			}
+		}
+		return true
+	})
+	if !ready {
+		failShape("retrieveCompressed: ensureRetrieveReady(target, hdr.Name) not found")
+	}
+	trunc := false
+	seen := map[string]bool{}
+	for _, fl := range strings.Split(flags, "|") {
+		fl = strings.TrimSpace(fl)
+		switch fl {
+		case "os.O_WRONLY", "os.O_CREATE", "os.O_RDWR":
+		case "os.O_TRUNC":
+			trunc = true
+		default:
+			failShape("retrieveCompressed: open flag %q", fl)
+		}
+		seen[fl] = true
+	}
+	if !seen["os.O_CREATE"] || !(seen["os.O_WRONLY"] || seen["os.O_RDWR"]) {
+		failShape("retrieveCompressed: open flags %s", flags)
+	}
+
+	var b strings.Builder
+	b.WriteString("(* ensureRetrieveReady(target, out), after `fullOut := filepath.Join(core.RepoRoot, target.OutDir(), out)`:\n   RIfNested = `if strings.ContainsRune(out, '/') {..}`, RTry op = `if err := op; err != nil { return \"\", err }`,\n   RReturnOp op = `return fullOut, op`, RReturnOk = `return fullOut, nil`; both retrieve loops call it on the path\n   they create next (retrieveFiles: the output; retrieveCompressed: hdr.Name) *)\n")
+	b.WriteString("Inductive rop := OMkdirAllParent | ORemoveAllFull.\n")
+	b.WriteString("Inductive rsimple := RTry (o : rop) | RReturnOp (o : rop) | RReturnOk.\n")
+	b.WriteString("Inductive rstmt := RS (x : rsimple) | RIfNested (body : list rsimple).\n")
+	b.WriteString("Definition retrieve_ready : list rstmt := [" + strings.Join(prog, "; ") + "].\n")
+	b.WriteString("(* retrieveFiles, uncompressed loop: `found` returned next to an error of ensureRetrieveReady / RecursiveLink *)\n")
+	b.WriteString("Definition plain_found_with_error : bool := " + plainFound + ".\n")
+	b.WriteString("(* retrieveCompressed: os.OpenFile(out, " + flags + ", mode) has O_TRUNC *)\n")
+	fmt := "false"
+	if trunc {
+		fmt = "true"
+	}
+	b.WriteString("Definition compressed_write_truncates : bool := " + fmt + ".\n")
+	return b.String()
 }
